@@ -9,7 +9,7 @@ CONSTANTS
   MaxTs = 2
   Classes = {"ok", "guest", "label", "needs", "badSig", "rf.redactMissing.d", "rf.redactMissing.g", "rf.editMissing.d", "rf.editMissing.g", "rf.reactMissing.d", "rf.reactMissing.g", "rf.replyMissing.d", "rf.replyMissing.g", "rf.badTitle.d", "rf.badTitle.g", "rf.label.g", "rejectLater"}
   MaxBad = 3
-  FullCauses = 2
+  FullCauses = 1
   AllowDetached = FALSE
   Emit = TRUE
   EmitMod = 1
